@@ -523,4 +523,5 @@ def rules(tier):
     from . import carry, precision
     return [rule_batch, rule_carry_state, rule_epsilon, rule_counts, rule_kmeans, rule_ftrl,
             carry.make_clone_rule("R-C15-clone", {"linfa_bayes", "linfa_ftrl"}, 6), carry.make_setter_rule("R-C15-override", {"linfa_bayes", "linfa_ftrl"}, 4),
-            precision.make_rule("R-C15-precision", lambda f: f["d"]["krate"] in ("linfa_bayes", "linfa_ftrl"), 30, "linfa-bayes and linfa-ftrl")]
+            precision.make_rule("R-C15-precision", lambda f: f["d"]["krate"] in ("linfa_bayes", "linfa_ftrl"), 30, "linfa-bayes and linfa-ftrl"),
+            carry.make_accessor_rule("R-C15-accessor", {"linfa_bayes", "linfa_ftrl"}, 4), carry.make_ctor_rule("R-C15-ctor", {"linfa_bayes", "linfa_ftrl"}, 2)]
